@@ -1,2 +1,212 @@
-def run(run, quick):
+"""C05 (D): recording of random Representation histories from the real object (code -> spec)
+and their validation by TLC against spec/rep/RepTrace.tla."""
+import json
+import os
+import random
+import re
+
+import numpy as np
+
+from . import core
+from . import rep_common as rc
+from . import rep_random as rr
+from .rep_common import Mode
+
+LIMIT = 2 ** 29
+
+
+class NotInteger(Exception):
     pass
+
+
+def ints(x):
+    a = rc.plain(x)
+    r = np.round(np.real(a))
+    if a.shape == () or not np.all(np.isfinite(a)) or not np.allclose(a, r, rtol=0, atol=1e-6):
+        raise NotInteger(rc.show(a))
+    return r.astype("int64").tolist()
+
+
+class Recorder:
+    def __init__(self, rng, length, mode):
+        self.rng, self.length, self.mode = rng, length, mode
+        self.n = rng.choice([1, 2, 2, 3, 3, 4])
+        self.k = rng.randint(2, 4 if self.n <= 3 else 2)
+        self.lower = list(rc.LOWER[:self.k])
+        self.letters = self.lower + [l.upper() for l in self.lower]
+        self.events = []
+        self.rep = rc.new_rep(mode)
+        self.der = None
+        self.norm = {}      # letter -> magnitude bound of the stored matrix
+        self.dnorm = {}
+        self.back = {mode.name(l): l for l in self.letters}
+
+    def dict_of(self, rep):
+        if rep is None:
+            return {}
+        return {self.back[nm]: ints(m) for nm, m in rep.generators.items()}
+
+    def log(self, op, **kw):
+        ev = dict(op=op, **kw)
+        ev["post"] = self.dict_of(self.rep)
+        ev["dpost"] = self.dict_of(self.der)
+        self.events.append(ev)
+
+    def rand_matrix(self):
+        return rr.rand_unimodular(self.rng, self.n, self.rng.randint(1, 2))
+
+    def rand_word(self, norms, maxlen=12):
+        avail = [l for l in self.letters if l in norms]
+        for _ in range(20):
+            w = [self.rng.choice(avail) for _ in range(self.rng.randint(0, maxlen))]
+            p = 1
+            for x in w:
+                p *= norms[x]
+            if p * max(1, len(w)) < LIMIT:
+                return w
+        return []
+
+    def do_set(self, rep, norms, op):
+        l = self.rng.choice(self.letters)
+        M = self.rand_matrix()
+        rep[self.mode.name(l)] = self.mode.cast(M, len(self.events))
+        norms[l] = rr.mnorm(M)
+        norms[rc.swapcase(l)] = rr.mnorm(rr.int_inverse(M))
+        self.log(op, name=l, M=M.tolist())
+
+    def step(self):
+        rng, mode = self.rng, self.mode
+        ops = ["set"] * 3 + (["eval"] * 6 + ["elements", "derive", "diff", "diff"] if self.norm else [])
+        if self.der is not None:
+            ops += ["setder", "deval", "deval", "deval"]
+        op = rng.choice(ops)
+        if op == "set":
+            self.do_set(self.rep, self.norm, "set")
+        elif op == "setder":
+            self.do_set(self.der, self.dnorm, "setder")
+        elif op == "eval":
+            w = self.rand_word(self.norm)
+            form = rng.choice(rc.word_forms(self.rep, mode, tuple(w)))
+            self.log("eval", w=w, res=ints(form[1]()), form=form[0])
+        elif op == "deval":
+            w = self.rand_word(self.dnorm, 8)
+            dm = Mode(mode.naming, False if self.der.parse_simple is False else None, mode.order, mode.dtype)
+            form = rng.choice(rc.word_forms(self.der, dm, tuple(w)))
+            self.log("deval", w=w, res=ints(form[1]()), form=form[0])
+        elif op == "elements":
+            ws = [self.rand_word(self.norm, 6) for _ in range(rng.randint(1, 4))]
+            res = rc.plain(self.rep.elements([mode.word(tuple(w)) for w in ws]))
+            self.log("elements", ws=ws, res=[ints(m) for m in res])
+        elif op == "derive":
+            kind = rng.choice(["copy", "dual", "conjugate", "compose_id", "compose_invT"])
+            k = dict(kind=kind, C=[], m=0)
+            cn = ci = 1
+            if kind == "conjugate":
+                C = rr.rand_unimodular(rng, self.n, 2)
+                k["C"] = C.tolist()
+                cn, ci = rr.mnorm(C), rr.mnorm(rr.int_inverse(C))
+            from .props import c05
+            self.der = c05.routes_for_kind(self.rep, k, mode, False)[0][1]()
+            if kind in ("dual", "compose_invT"):
+                self.dnorm = {l: self.norm[rc.swapcase(l)] for l in self.norm}
+            else:
+                self.dnorm = {l: self.norm[l] * cn * ci for l in self.norm}
+            self.log("derive", kind=k)
+        elif op == "diff":
+            if mode.naming != "single" or mode.parse is False:
+                return
+            w = self.rand_word(self.norm, 6)
+            if not w:
+                return
+            s = "".join(w)
+            lowers = list(self.rep.asym_gens())
+            D = np.asarray(self.rep.differential(s))
+            n = self.n
+            if D.shape != (n, n * len(lowers)):
+                raise NotInteger("differential(%r) has shape %r" % (s, D.shape))
+            self.log("diff", w=w, res={g: ints(D[:, i * n:(i + 1) * n]) for i, g in enumerate(lowers)})
+
+    def run(self):
+        for _ in range(self.length):
+            self.step()
+        return dict(n=self.n, events=self.events)
+
+
+MODES = [Mode("single", None, "lower", "float"), Mode("single", None, "lower", "mixed"),
+         Mode("multi", None, "lower", "int"), Mode("long", False, "lower", "float")]
+
+_ACC = re.compile(r'^"ACCEPT (\d+)"')
+_AT = re.compile(r'^"AT (\d+) (\d+)"')
+
+
+def validate(run, traces, name, verbose=False):
+    wd = os.path.join(run.work, name)
+    os.makedirs(wd, exist_ok=True)
+    tf = os.path.join(wd, "traces.json")
+    with open(tf, "w") as f:
+        json.dump(traces, f)
+    c = core.cfg(init="TraceInit", next_="TraceNext", invariants=["Coherent", "Accepted"], view="TraceView")
+    env = {"TRACE_FILE": tf}
+    if verbose:
+        env["TRACE_VERBOSE"] = "1"
+    r = run.tlc("rep/RepTrace.tla", c, name=name, workers=min(4, core.NCPU), env_extra=env, emit_prefix="\x00none")
+    acc, at = set(), {}
+    for line in r.stdout.splitlines():
+        m = _ACC.match(line)
+        if m:
+            acc.add(int(m.group(1)) - 1)
+        m = _AT.match(line)
+        if m:
+            t, l = int(m.group(1)) - 1, int(m.group(2))
+            at[t] = max(at.get(t, 0), l)
+    return {i: at.get(i) for i in range(len(traces)) if i not in acc}
+
+
+def brief(ev):
+    return {k: v for k, v in ev.items() if k not in ("post", "dpost", "res")}
+
+
+def run(run, quick):
+    rng = random.Random(run.seed * 104729 + 11)
+    n_hist, length = (60, 30) if quick else (600, 40)
+    traces, modes = [], []
+    for i in range(n_hist):
+        mode = MODES[i % len(MODES)]
+        rec = Recorder(rng, length, mode)
+        try:
+            traces.append(rec.run())
+            modes.append(str(mode))
+        except NotInteger as e:
+            hist = [brief(ev) for ev in rec.events[-4:]]
+            run.violation("trace:%s:%s" % (mode, json.dumps(hist, sort_keys=True)[:300]), "trace:non_integer_result",
+                          dict(mode=str(mode), after=hist, observed=str(e)))
+        except Exception as e:      # the library raised on an in-domain call
+            import traceback
+            tb = traceback.format_exc().splitlines()
+            if not any("geometry_tools" in x for x in tb):
+                raise
+            hist = [brief(ev) for ev in rec.events[-4:]]
+            run.violation("trace:%s:%s" % (mode, json.dumps(hist, sort_keys=True)[:300]), "trace:raised",
+                          dict(mode=str(mode), after=hist, error="%s: %s" % (type(e).__name__, e)))
+    if not traces:
+        return
+    rejected = validate(run, traces, "RepTrace")
+    n_ok = len(traces) - len(rejected)
+    run.traces += n_ok
+    run.evaluations += sum(len(t["events"]) for t in traces)
+    run.nontrivial_count += n_ok
+    run.actions["trace_events"] = sum(len(t["events"]) for t in traces)
+    if rejected:
+        ids = sorted(rejected)[:10]
+        rej2 = validate(run, [traces[i] for i in ids], "RepTrace_diag", verbose=True)
+        for j, i in enumerate(ids):
+            matched = rej2.get(j) or 0
+            evs = traces[i]["events"]
+            ev = evs[matched] if matched < len(evs) else None
+            hist = [brief(e) for e in evs[:matched + 1]]
+            run.violation("trace:%s:%s" % (modes[i], json.dumps(hist[-3:], sort_keys=True)[:300]),
+                          "trace:" + (ev["op"] if ev else "?"),
+                          dict(mode=modes[i], matched_prefix=matched, rejected_event=ev, history=hist[-6:]))
+    t = traces[0]
+    run.sample(dict(kind="recorded trace", n=t["n"], mode=modes[0], events=[brief(e) for e in t["events"][:6]]))
+    run.extra["traces"] = dict(histories=len(traces), events=sum(len(t["events"]) for t in traces), accepted=n_ok)
